@@ -642,7 +642,7 @@ impl<'a> Checker<'a> {
                         f.nlocals += 1;
                         s
                     };
-                    let o = self.new_obj(Obj::Var { ty: bt, res: Res::Local(slot), line: b.line, is_param: false, name: b.name.clone() });
+                    let o = self.new_obj(Obj::Var { ty: bt, res: Res::Local(slot), line: b.line, name: b.name.clone() });
                     self.scopes.last_mut().unwrap().insert(b.name.clone(), o);
                     self.info.clause_bind.insert(c.id, (slot, bt));
                     bind_objs.push(o);
